@@ -364,6 +364,8 @@ func swarmOracle(r *rand.Rand, n int, tier string, infile string) (cases int, fa
 	if start == 0 {
 		muxReopenCase(bad)
 		cases++
+		muxReopenDeliveryCase(bad)
+		cases++
 		dupHoldCase("frag", bad)
 		dupHoldCase("mbapp", bad)
 		cases += 2
@@ -392,6 +394,46 @@ var closeDuringDone = map[string]bool{}
 // muxReopenCase (C12, repeated Close): a muxed channel is opened, closed, opened again under the same id, the stale
 // handle is closed a second time (a leftover deferred Close), then the live handle is closed: its blocked Receive and
 // ServeAsk calls and every later one must return an error promptly.
+// muxReopenDeliveryCase (C15, the open-channel table decides delivery): traffic on a channel, the destination closes its
+// swarm for that channel and opens the channel again, more traffic on the same channel: the swarm that is open NOW
+// receives it; nothing reaches another channel.
+func muxReopenDeliveryCase(bad func(string, ...any)) {
+	realm := memswarm.NewRealm(memswarm.WithQueueLen(16), memswarm.WithMTU(2000))
+	ma := p2pmux.NewStringMux[memswarm.Addr](realm.NewSwarm())
+	mb := p2pmux.NewStringMux[memswarm.Addr](realm.NewSwarm())
+	ax := ma.Open("chan-x")
+	bx, by := mb.Open("chan-x"), mb.Open("chan-y")
+	defer ax.Close()
+	defer by.Close()
+	dst := bx.LocalAddrs()[0]
+	recvOne := func(s p2p.Swarm[memswarm.Addr], wait time.Duration) (string, error) {
+		ctx, cf := context.WithTimeout(context.Background(), wait)
+		defer cf()
+		var got string
+		err := s.Receive(ctx, func(m p2p.Message[memswarm.Addr]) { got = string(m.Payload) })
+		return got, err
+	}
+	tell := func(p string) {
+		ctx, cf := context.WithTimeout(context.Background(), time.Second)
+		defer cf()
+		ax.Tell(ctx, dst, p2p.IOVec{[]byte(p)})
+	}
+	for round := 0; round < 3; round++ {
+		want := fmt.Sprintf("message %d on chan-x", round)
+		tell(want)
+		if got, err := recvOne(bx, time.Second); err != nil || got != want {
+			bad("C15 strmux: after %d close/re-open rounds of chan-x at the destination, a message told on chan-x does not reach the swarm open for chan-x (got %q, err=%v)", round, got, err)
+			break
+		}
+		bx.Close()
+		bx = mb.Open("chan-x")
+	}
+	bx.Close()
+	if got, err := recvOne(by, 50*time.Millisecond); err == nil {
+		bad("C15 strmux: the swarm open for chan-y received %q, which was told on chan-x", got)
+	}
+}
+
 func muxReopenCase(bad func(string, ...any)) {
 	realm := memswarm.NewRealm(memswarm.WithQueueLen(16), memswarm.WithMTU(2000))
 	m := p2pmux.NewStringAskMux[memswarm.Addr](realm.NewSwarm())
